@@ -16,6 +16,7 @@ import (
 	"crypto/sha256" // also registers the algorithm with go-digest
 	"crypto/sha512"
 	"encoding/hex"
+	"encoding/json"
 	"fmt"
 	"math/rand/v2"
 	"os"
@@ -57,7 +58,7 @@ func main() {
 	r := evidence.New("C12", "exploration")
 	r.Rule("phase pipe: case = (1-3 items, each a seeded directory tree (depth <= 5, empty dirs/files, long / non-ASCII / odd names, relative in-tree symlinks, assorted modes, sizes 0..2.5 MiB) or a single file, " +
 		"titles plain / nested / long / non-ASCII / unclean, option set over {TarReproducible, PreservePermissions, SkipUnpack, ForceCAS, IgnoreNoName}, intermediate in {none, memory, oci, remote}, umask in {022, 077, 027, 0}); " +
-		"Add -> PackManifest -> Copy (-> Copy) into a second file store; restored trees compared with on-disk snapshots of the sources (paths, types, bytes, link targets, modes); " +
+		"Add -> pack (root kind in {PackManifest v1.1, v1.0, deprecated Pack as artifact manifest, deprecated Pack as image manifest, hand-built Docker v2 manifest, OCI index over two such manifests with the layers split or shared}) -> Copy (-> Copy) into a second file store; restored trees compared with on-disk snapshots of the sources (paths, types, bytes, link targets, modes); " +
 		"phase repro: twin trees differing in timestamps, owners, creation order and hard links must give equal descriptors under TarReproducible; " +
 		"phase tamper: a directory blob with a wrong io.deis.oras.content.digest (or changed archive under the recorded digest) must be refused, the untampered one accepted and restored; " +
 		"phase dup: 2-4 names with equal bytes, with and without ForceCAS. " +
@@ -81,7 +82,7 @@ func main() {
 	worker.Run(r, worker.Opts{Phase: "pipe", Total: r.N(320, 6000), Batch: r.N(10, 40), OnResult: tally})
 	worker.Run(r, worker.Opts{Phase: "repro", Total: r.N(160, 2500), Batch: r.N(10, 40), OnResult: tally})
 	worker.Run(r, worker.Opts{Phase: "tamper", Total: r.N(160, 2500), Batch: r.N(10, 40), OnResult: tally})
-	worker.Run(r, worker.Opts{Phase: "dup", Total: r.N(160, 2500), Batch: r.N(10, 40), OnResult: tally})
+	worker.Run(r, worker.Opts{Phase: "dup", Total: r.N(240, 2500), Batch: r.N(10, 40), OnResult: tally})
 	if len(violKeys) > 0 {
 		r.Set("cases_per_violation_key", violKeys)
 	}
@@ -98,6 +99,9 @@ func main() {
 		{"repro_timestamps_mattered", int64(r.N(50, 800))},
 		{"dup_restored_by_store", int64(r.N(20, 300))},
 		{"dup_forcecas_deduped", int64(r.N(10, 150))},
+		{"dup_restored_under_artifact_manifest", int64(r.N(2, 40))},
+		{"dup_restored_under_docker_manifest", int64(r.N(2, 40))},
+		{"dup_restored_under_index", int64(r.N(2, 40))},
 		{"hook_restoreDuplicates", int64(r.N(100, 2000))},
 		{"items_dir_unpacked", int64(r.N(100, 2000))},
 		{"items_dir_skipunpack", int64(r.N(30, 600))},
@@ -344,8 +348,9 @@ func casePipe(res *worker.Result, rng *rand.Rand, root string, idx int, dupPhase
 		}
 	}
 
+	mkind := "" // manifest kind of the root, set when packed
 	wit := func() map[string]any {
-		return map[string]any{"options": o.String(), "intermediate": mid, "umask": fmt.Sprintf("%03o", umask), "items": items}
+		return map[string]any{"options": o.String(), "intermediate": mid, "umask": fmt.Sprintf("%03o", umask), "manifest": mkind, "items": items}
 	}
 
 	// ---- build sources (under a neutral umask), snapshot them
@@ -413,15 +418,10 @@ func casePipe(res *worker.Result, rng *rand.Rand, root string, idx int, dupPhase
 			return
 		}
 	}
-	var manifest ocispec.Descriptor
-	packOpts := oras.PackManifestOptions{Layers: layers}
-	if rng.IntN(2) == 0 {
-		manifest, err = oras.PackManifest(ctx, fs1, oras.PackManifestVersion1_1, "application/vnd.test.c12", packOpts)
-	} else {
-		manifest, err = oras.PackManifest(ctx, fs1, oras.PackManifestVersion1_0, "application/vnd.test.c12.config", packOpts)
-	}
+	manifest, kind, err := packRoot(rng, fs1, layers)
+	mkind = kind
 	if err != nil {
-		pipelineErr("PackManifest", err)
+		pipelineErr("Pack("+kind+")", err)
 		return
 	}
 	tag := "v1"
@@ -612,12 +612,16 @@ func casePipe(res *worker.Result, rng *rand.Rand, root string, idx int, dupPhase
 		default:
 			if sameMT >= 2 {
 				res.Count("dup_restored_by_store", 1)
+				res.Observe("dup_restored_under_manifest_kinds", mkind)
+				res.Count("dup_restored_under_"+kindClass(mkind), 1)
 			}
 		}
 	}
 
 	sort.Strings(shapes)
-	res.Key = fmt.Sprintf("%s|%s|%s|%03o", strings.Join(shapes, "+"), o.String(), mid, umask)
+	res.Key = fmt.Sprintf("%s|%s|%s|%03o|%s", strings.Join(shapes, "+"), o.String(), mid, umask, mkind)
+	res.Observe("manifest_kinds", mkind)
+	res.Observe("manifest_kind_x_intermediate", mkind+"/"+mid)
 	res.NT = nontrivial
 	if dupPhase {
 		res.NT = dupNT
@@ -638,7 +642,9 @@ func casePipe(res *worker.Result, rng *rand.Rand, root string, idx int, dupPhase
 		res.MaxOf("max_depth", int64(st.MaxDepth))
 	}
 	if idx%61 == 0 {
-		res.Sample = sampleOf(items, o, mid, umask)
+		sm := sampleOf(items, o, mid, umask)
+		sm["manifest"] = mkind
+		res.Sample = sm
 	}
 }
 
@@ -711,6 +717,109 @@ func checkDescriptor(fs *file.Store, it *item, res *worker.Result) []diff {
 		ds = append(ds, diff{"descriptor:uncompressed-digest", "", fmt.Sprintf("recorded uncompressed digest %s, gunzipped blob has sha256:%x", d.Annotations[file.AnnotationDigest], tsum[:6])})
 	}
 	return ds
+}
+
+// ------------------------------------------------------------ manifest kinds
+
+var leafKinds = []string{"packmanifest-1.1", "packmanifest-1.0", "pack-artifact", "pack-image", "docker-v2"}
+
+const (
+	mediaTypeDockerManifest = "application/vnd.docker.distribution.manifest.v2+json"
+	mediaTypeDockerConfig   = "application/vnd.docker.container.image.v1+json"
+)
+
+// kindClass groups root kinds by the manifest format that lists the layers.
+func kindClass(kind string) string {
+	switch {
+	case strings.HasPrefix(kind, "index("):
+		return "index"
+	case kind == "pack-artifact":
+		return "artifact_manifest"
+	case kind == "docker-v2":
+		return "docker_manifest"
+	}
+	return "oci_image_manifest"
+}
+
+// packLeaf packs the layers into one manifest of the given kind in the store.
+func packLeaf(rng *rand.Rand, s *file.Store, kind string, layers []ocispec.Descriptor) (ocispec.Descriptor, error) {
+	switch kind {
+	case "packmanifest-1.1":
+		return oras.PackManifest(ctx, s, oras.PackManifestVersion1_1, "application/vnd.test.c12", oras.PackManifestOptions{Layers: layers})
+	case "packmanifest-1.0":
+		return oras.PackManifest(ctx, s, oras.PackManifestVersion1_0, "application/vnd.test.c12.config", oras.PackManifestOptions{Layers: layers})
+	case "pack-artifact": // the default of the deprecated Pack: an OCI artifact manifest
+		return oras.Pack(ctx, s, "application/vnd.test.c12", layers, oras.PackOptions{})
+	case "pack-image":
+		return oras.Pack(ctx, s, "application/vnd.test.c12.config", layers, oras.PackOptions{PackImageManifest: true})
+	case "docker-v2":
+		cfg := []byte(fmt.Sprintf(`{"architecture":"amd64","os":"linux","c12":%d}`, rng.IntN(1<<30)))
+		cfgDesc := ocispec.Descriptor{MediaType: mediaTypeDockerConfig, Digest: digest.FromBytes(cfg), Size: int64(len(cfg))}
+		if err := s.Push(ctx, cfgDesc, bytes.NewReader(cfg)); err != nil {
+			return ocispec.Descriptor{}, fmt.Errorf("docker config: %w", err)
+		}
+		if layers == nil {
+			layers = []ocispec.Descriptor{}
+		}
+		body, err := json.Marshal(struct {
+			SchemaVersion int                  `json:"schemaVersion"`
+			MediaType     string               `json:"mediaType"`
+			Config        ocispec.Descriptor   `json:"config"`
+			Layers        []ocispec.Descriptor `json:"layers"`
+		}{2, mediaTypeDockerManifest, cfgDesc, layers})
+		if err != nil {
+			return ocispec.Descriptor{}, err
+		}
+		d := ocispec.Descriptor{MediaType: mediaTypeDockerManifest, Digest: digest.FromBytes(body), Size: int64(len(body))}
+		return d, s.Push(ctx, d, bytes.NewReader(body))
+	}
+	return ocispec.Descriptor{}, fmt.Errorf("harness: unknown manifest kind %q", kind)
+}
+
+// packRoot packs the layers under a root of a random kind: one manifest, or an
+// OCI index over two manifests between which the layers are split (or shared).
+func packRoot(rng *rand.Rand, s *file.Store, layers []ocispec.Descriptor) (ocispec.Descriptor, string, error) {
+	if rng.IntN(6) != 0 {
+		kind := leafKinds[rng.IntN(len(leafKinds))]
+		d, err := packLeaf(rng, s, kind, layers)
+		return d, kind, err
+	}
+	ka, kb := leafKinds[rng.IntN(len(leafKinds))], leafKinds[rng.IntN(len(leafKinds))]
+	kind := "index(" + ka + "," + kb + ")"
+	var la, lb []ocispec.Descriptor
+	for i, l := range layers {
+		switch {
+		case len(layers) == 1 || rng.IntN(5) == 0: // shared by both
+			la, lb = append(la, l), append(lb, l)
+		case i == 0:
+			la = append(la, l)
+		case i == 1:
+			lb = append(lb, l)
+		case rng.IntN(2) == 0:
+			la = append(la, l)
+		default:
+			lb = append(lb, l)
+		}
+	}
+	da, err := packLeaf(rng, s, ka, la)
+	if err != nil {
+		return da, kind, err
+	}
+	db, err := packLeaf(rng, s, kb, lb)
+	if err != nil {
+		return db, kind, err
+	}
+	if da.Digest == db.Digest {
+		return da, kind + ":collapsed", nil
+	}
+	idx := ocispec.Index{MediaType: ocispec.MediaTypeImageIndex, Manifests: []ocispec.Descriptor{da, db}}
+	idx.SchemaVersion = 2
+	body, err := json.Marshal(idx)
+	if err != nil {
+		return ocispec.Descriptor{}, kind, err
+	}
+	d := ocispec.Descriptor{MediaType: ocispec.MediaTypeImageIndex, Digest: digest.FromBytes(body), Size: int64(len(body))}
+	return d, kind, s.Push(ctx, d, bytes.NewReader(body))
 }
 
 // -------------------------------------------------------------------- repro
